@@ -57,7 +57,18 @@ def samePkg : List File → Bool
 
 def WF (fs : List File) : Bool := fs.all layoutOK && samePkg fs
 
+/-- the layout condition fails only because a comment INSIDE one declaration ends fewer than 10 bytes before the
+    next declaration of the same file (`func (c *client) ShootRest() { /*noop*/ }` followed by `func init()` in
+    the output of `shoot rest`): the code then prints that comment a second time, in front of the next declaration -/
+def strayOnly (f : File) : Bool :=
+  f.decls.all (fun d => d.isImport ||
+    f.comments.all (fun c => !(c.endp ≤ d.pos && d.pos - c.endp < 10) || isDoc d c ||
+      f.decls.any (fun e => !e.isImport && inside e c)))
+
 def region (fs : List File) : String :=
-  if fs.isEmpty then "Out" else if WF fs then "WF" else "Out"
+  if fs.isEmpty || !samePkg fs then "Out"
+  else if fs.all layoutOK then "WF"
+  else if fs.all strayOnly then "F_strayComment"
+  else "Out"
 
 end ShootVerif.Merge
